@@ -12,6 +12,9 @@ structure DSt where
   cfg : Cfg
   s : St := init
   cancelled : Nat → Bool := fun _ => false
+  destroyed : List Nat := []
+  /-- a stale callback has removed a live instance's map entry in this case -/
+  staleUsed : Bool := false
 
 def act (d : DSt) (a : Act) : DSt :=
   match step d.cfg d.s a with
@@ -22,12 +25,15 @@ def threads : List Nat := [1, 2, 3, 4, 5, 6]
 
 def render (d : DSt) : String :=
   let s := d.s
+  -- two live instances that sit on different wait slots come from the dropped slot; otherwise
+  -- from a close callback that unmapped a live instance
+  let finding := if d.staleUsed then "C18-stale-callback-unmaps-live-instance" else "C18-slot-dropped-while-in-use"
   let cur := match s.slotMap with | some k => toString k | none => "-"
   let slots := (List.range s.nextSlot).map fun k =>
     let sl := s.slots k
     s!"{k}:{if sl.owner.isSome then 1 else 0}:{sl.count}"
-  s!"live={s.live.length} mapped={if s.swampMap.isSome then 1 else 0} cur={cur} slots=[{" ".intercalate slots}]" ++
-    (if s.live.length > 1 then "\t#F:C18-slot-dropped-while-in-use" else "")
+  s!"live={s.live.length} made={s.nextInst} mapped={if s.swampMap.isSome then 1 else 0} cur={cur} slots=[{" ".intercalate slots}]" ++
+    (if s.live.length > 1 then "\t#F:" ++ finding else "")
 
 /-- the waiter of slot `σ`, if any -/
 def waiterOf (d : DSt) (σ : Nat) : Option Nat :=
@@ -104,15 +110,37 @@ def stepLine (d : DSt) (line : String) : DSt × String :=
       let d := { d with cancelled := fun x => if x = t then true else d.cancelled x }
       (d, s!"cancel {t} {render d}")
   | ["close"] =>
-    if d.s.swampMap.isSome then
-      let d := act d .closeCallback
+    match d.s.swampMap with
+    | some i =>
+      let d := act d (.closeInst i)
       (d, s!"close ok {render d}")
-    else (d, s!"close none {render d}")
+    | none => (d, s!"close none {render d}")
+  | ["closeold", ks] =>
+    match ks.toNat? with
+    | none => (d, "skip")
+    | some k =>
+      if !(d.s.published.contains k) then (d, "skip") else
+      if d.s.live.contains k then
+        let d := act d (.closeInst k)
+        (d, s!"closeold {k} ok {render d}")
+      else (d, s!"closeold {k} noop {render d}")
+  | ["destroyold", ks] =>
+    match ks.toNat? with
+    | none => (d, "skip")
+    | some k =>
+      if !(d.s.published.contains k) then (d, "skip") else
+      if d.destroyed.contains k then (d, s!"destroyold {k} noop {render d}") else
+      let d := { d with destroyed := k :: d.destroyed }
+      -- Destroy on a live instance closes it; on a dead one only its close callback runs again
+      let mappedOther := d.s.swampMap.isSome && d.s.swampMap != some k
+      let d := if d.s.live.contains k then act d (.closeInst k) else act d (.staleCallback k)
+      let d := if mappedOther && d.s.swampMap.isNone then { d with staleUsed := true } else d
+      (d, s!"destroyold {k} ok {render d}")
   | _ => (d, "bad-op")
 
 def run (args : List String) : IO UInt32 := do
   let kv := parseArgs args
-  lineLoop stepLine { cfg := { refCounted := arg kv "refCounted" == "yes" } }
+  lineLoop stepLine { cfg := { refCounted := arg kv "refCounted" == "yes", callbackCompares := arg kv "callbackCompares" == "yes" } }
   return 0
 
 end Driver.C18
